@@ -271,6 +271,41 @@ NRNext(st, w, e) ==
   ELSE IF w.res \in {"data", "wild"} THEN w.s
   ELSE [w.s EXCEPT !.failed = TRUE, !.nrid = e.id, !.rd = "none", !.nerr = st.nerr + 1]
 
+(***************************************************************************)
+(* io.ReadAll(JoinMessages(c, term)): NextReader + read-to-end, repeated   *)
+(* until NextReader fails.  The walk returns the starts of the messages    *)
+(* delivered completely, the number of bytes they contribute (each plus    *)
+(* the terminator), and the terminal outcome (always an error outcome:     *)
+(* the join reader ends only when the connection does).                    *)
+(***************************************************************************)
+RECURSIVE JALoop(_, _, _, _, _, _)
+JALoop(st, obs, starts, lens, total, tl) ==
+  LET w1 == NRWalk(st, FALSE) IN
+  IF st.failed THEN [s |-> st, obs |-> obs, starts |-> starts, lens |-> lens, total |-> total, partial |-> 0, w |-> Out(st, << >>, "failed", FALSE)]
+  ELSE IF w1.res # "data" THEN
+       [s |-> w1.s, obs |-> obs \o w1.obs, starts |-> starts, lens |-> lens, total |-> total, partial |-> 0, w |-> [w1 EXCEPT !.obs = obs \o w1.obs]]
+  ELSE LET s1 == w1.s
+           w2 == RALoop(s1, << >>)
+           len == IF fr[s1.start].comp THEN fr[s1.start].plain ELSE w2.s.got
+       IN IF w2.res = "eom" /\ fr[w2.s.cur].arr = "full" THEN
+               JALoop([w2.s EXCEPT !.rd = "eof"], obs \o w1.obs \o w2.obs, Append(starts, s1.start), Append(lens, len), total + len + tl, tl)
+          ELSE [s |-> w2.s, obs |-> obs \o w1.obs \o w2.obs, starts |-> starts, lens |-> lens, total |-> total, partial |-> len,
+                w |-> [w2 EXCEPT !.obs = obs \o w1.obs \o w2.obs]]
+
+(* reported: n bytes, error e, side effects obs, segs = starts of the messages found in the output, in order, *)
+(* rest = trailing bytes that are a prefix of the next message (restOK)                                       *)
+JAAllowed(j, n, e, obs, segs, rest, restOK) ==
+  IF j.w.res = "wild" THEN TRUE
+  ELSE /\ IsErr(e) /\ ObsOK(j.w, obs) /\ restOK
+       /\ IF j.w.res = "eom" THEN
+             \* the last message ended together with the transport fault: it may or may not be included
+             \/ segs = j.starts /\ n = j.total + rest /\ rest <= j.partial
+             \/ segs = Append(j.starts, j.s.start) /\ rest = 0
+          ELSE /\ segs = j.starts /\ n = j.total + rest /\ rest <= j.partial
+               /\ (j.w.res = "failed" \/ ErrFits(j.w, e))
+
+JANext(j, e) == [j.s EXCEPT !.failed = TRUE, !.nrid = e.id, !.rd = "none", !.nerr = j.s.nerr + 1]
+
 (* C05/C07: the only panic the library may raise on untrusted input: the 1000th NextReader call *)
 (* on a connection that has already failed.                                                    *)
 PanicAllowed(st) == st.failed /\ st.nerr >= 999
